@@ -21,4 +21,43 @@ CHECKS = {
          'meaning of dd operations (&,|,~,exist,forall,let/rename,==) as set '
          'operations; sample-based tie for dd semantics; preimage() not '
          'modelled. No axioms (Print Assumptions: closed).')),
+ 'C01': dict(
+   design_ref='§6 C01',
+   technique='Coq proof over solver code translated from gr1.py (tie T): returned region = mu-calculus fixpoint; vm_compute correspondence incl. all iterates',
+   text=('solve_streett_game and _attractor_under_assumptions are translated '
+         'from the current gr1.py into Gallina on every run; proved for all '
+         'arenas, actions, liveness lists and the four modes: the returned '
+         'region equals nu Z. /\\_j mu Y. \\/_k nu X. (P_k /\\ cpre X) \\/ cpre Y '
+         '\\/ (R_j /\\ cpre Z) over the exact controllable predecessor of '
+         'C11 (each level characterised as least/greatest fixpoint), loops '
+         'terminate by convergence. The game-semantic reading (winning '
+         'strategies over infinite plays) is NOT mechanised: partial. The '
+         'translated model is run against the real solver (region and all '
+         'iterates, both back ends, all bit-range valuations).'),
+   note=('Trusted: Coq kernel+vm_compute; py2coq translator; dd operations '
+         'modelled by meaning; classical GR(1) theorem linking the fixpoint '
+         'to winning strategies is assumed, not proved. No axioms.')),
+ 'C03': dict(
+   design_ref='§6 C03',
+   technique='Coq proof over is_realizable/_make_init translated from gr1.py (tie T) + vm_compute correspondence over 4 qinit x 2 plus_one',
+   text=('is_realizable and _make_init are translated every run; proved: '
+         'verdict = the documented quantified formula for each qinit form and '
+         'causality mode, None exactly when the side condition fails; '
+         'init[impl] = form predicate /\\ internal init, refused iff empty; '
+         'admitted states meet SysInit and are winning when EnvInit holds; '
+         'verdict true => init synthesis succeeds. Real code compared on '
+         'random games/inits incl. transducer construction success.'),
+   note=('Trusted: as C01. The winning region is a parameter of these '
+         'theorems (its exactness is C01/C04). No axioms.')),
+ 'C04': dict(
+   design_ref='§6 C04',
+   technique='Coq proof: translated Rabin solver = mu-calculus fixpoint; Streett/Rabin duality theorem via complement-swap bijection; correspondence + real-code duality check',
+   text=('solve_rabin_game/_cycle_inside/_attractor_inside translated every '
+         'run; proved for all arenas and modes: last iterate = mu Z. \\/_k nu '
+         'Y. /\\_j mu X. (cpre X \\/ R_j) /\\ cpre Y /\\ (cpre Z \\/ P_k); and the '
+         'full duality: the Streett(1) region (spec and generated solver) is '
+         'the complement of the opponent Rabin(1) region for complemented '
+         'liveness, swapped roles, Moore<->Mealy, strict<->non-strict. '
+         'Game-semantic reading not mechanised (partial).'),
+   note='Trusted: as C01. No axioms.'),
 }
